@@ -1,3 +1,135 @@
 import FiberModel.DriverUtil
--- stub driver for C06; replaced when the property's model lands
-def main : IO Unit := pure ()
+import FiberModel.C06.Spec
+import FiberModel.Generated.C06Facts
+/-
+Driver for C06. Case fields (after the id):
+  imm(0/1)  req0  later(`;`-separated requests or `-`)  implObs
+request := proto|name|rest|query|headers|cookies|host|body   (pairs: `hexk=hexv,…` or `-`;
+           body: `n` | `r:<hex>` | `f:<pairs>` | `j:<pairs>`)
+implObs := acc=during/end/after;…   (each a hex list; after = `na` when imm = 0)
+Special case id `coverage`: one field, the `,`-separated accessor ids the harness probed; compared
+with the regenerated table (every row must have a dynamic confirmation).
+-/
+open B DriverUtil C06
+
+def parsePairs (s : String) : Option (List (Bytes × Bytes)) :=
+  if s == "-" then some [] else
+  (s.splitOn ",").mapM fun p =>
+    match p.splitOn "=" with
+    | [k, v] => do some (← fromHex k, ← fromHex v)
+    | _ => none
+
+def parseReq (s : String) : Option Req :=
+  match s.splitOn "|" with
+  | [pr, name, rest, qy, hd, ck, host, body] => do
+    let proto ← if pr == "0" then some 0 else if pr == "1" then some 1 else none
+    let name ← fromHex name
+    let rest ← fromHex rest
+    let qy ← parsePairs qy
+    let hd ← parsePairs hd
+    let ck ← parsePairs ck
+    let host ← fromHex host
+    if name.isEmpty || host.isEmpty then none
+    let base : Req := { proto, name, rest, query := qy, headers := hd, cookies := ck, host, bkind := 'n', braw := [], bform := [] }
+    if body == "n" then some base
+    else if body.startsWith "r:" then do some { base with bkind := 'r', braw := ← fromHex (body.drop 2).toString }
+    else if body.startsWith "f:" then do some { base with bkind := 'f', bform := ← parsePairs (body.drop 2).toString }
+    else if body.startsWith "j:" then do some { base with bkind := 'j', bform := ← parsePairs (body.drop 2).toString }
+    else none
+  | _ => none
+
+/-- `Meth(key)` → (Meth, key) -/
+def splitAcc (acc : String) : String × Bytes :=
+  match acc.splitOn "(" with
+  | [m] => (m, [])
+  | m :: rest =>
+    let k := "(".intercalate rest
+    (m, b (if k.endsWith ")" then (k.dropEnd 1).toString else k))
+  | [] => (acc, [])
+
+/-- table row(s) an accessor id is a dynamic confirmation of -/
+def rowNameOf (meth : String) : String :=
+  -- `Query[string]` → `Query`; `Req.Params` → `Params`; `Bind.Query:map` → `Bind.Query:source`
+  let m := (meth.splitOn "[").headD meth
+  let m := if m.startsWith "Req." then (m.drop 4).toString else m
+  if m.startsWith "Bind." then ((m.splitOn ":").headD m) ++ ":source" else m
+
+def findRow (meth : String) : Option Row :=
+  let n := rowNameOf meth
+  let generic := (meth.splitOn "[").length > 1
+  Facts.rows.find? fun r => r.name == n && (if generic then r.kind == .generic else r.kind != .generic && r.kind != .conv)
+
+def parseObs (imm : Bool) (s : String) : Option Obs :=
+  match s.splitOn "/" with
+  | [d, e, a] => do
+    let d ← hexList d
+    let e ← hexList e
+    if a == "na" then (if imm then none else some { during := d, atEnd := e, after := none })
+    else some { during := d, atEnd := e, after := some (← hexList a) }
+  | _ => none
+
+def renderObs (d e : List Bytes) (a : Option (List Bytes)) : String :=
+  s!"{hexListField d}/{hexListField e}/{match a with | some a => hexListField a | none => "na"}"
+
+def coverage (probed : String) : Except String Verdict := do
+  let ids := probed.splitOn ","
+  let probedRow (r : Row) : Bool :=
+    match r.kind with
+    | .ctx => ids.any fun i => (i.splitOn "(").headD i == r.name
+    | .generic => ids.any fun i => (i.splitOn "[").headD i == r.name && (i.splitOn "[").length > 1
+    | .redirect => ids.any fun i => (i.splitOn "(").headD i == r.name
+    | .bind => ids.any fun i => i.startsWith ((r.name.splitOn ":").headD r.name ++ ":")
+    | .binder | .conv => true      -- exercised through the Bind.* probes / every getString accessor
+  let missing := (Facts.rows.filter fun r => !probedRow r).map (·.name)
+  let notOk := (Facts.rows.filter fun r => !r.okImmutable).map (·.name)
+  let obs := if missing.isEmpty then "covered" else "unprobed:" ++ ",".intercalate missing
+  pure { id := "coverage", modelObs := "covered", implObs := obs, spec := none,
+         tags := ["coverage"] ++ notOk.map (fun n => "table-not-copying:" ++ n) ++ missing.map (fun n => "unprobed:" ++ n) }
+
+def handleCase (f : List String) : Except String Verdict := do
+  match f with
+  | ["coverage", probed] => coverage probed
+  | [id, imm, req0, later, impl] =>
+    if impl == "invalid" || impl == "unserved" then throw "outside-domain: request outside the structured vocabulary"
+    let imm ← if imm == "1" then pure true else if imm == "0" then pure false else throw "outside-domain: imm"
+    let some q := parseReq req0 | throw "outside-domain: req0"
+    let laterN ← if later == "-" then pure 0 else do
+      let ls := later.splitOn ";"
+      if ls.all fun l => (parseReq l).isSome then pure ls.length else throw "outside-domain: later"
+    let mut modelParts : List String := []
+    let mut fail : Option String := none
+    let mut nosem := 0
+    let mut views := 0
+    for part in impl.splitOn ";" do
+      let (acc, v) := match part.splitOn "=" with
+        | a :: rest => (a, "=".intercalate rest)
+        | [] => (part, "")
+      -- accessor ids may contain '=' only inside parentheses (they do not); values never do
+      let some o := parseObs imm v | throw s!"unparsable observation for {acc}"
+      let (meth, key) := splitAcc acc
+      let want := sem q meth key
+      if want.isNone then nosem := nosem + 1
+      -- spec oracle on the implementation's observation
+      if fail.isNone then
+        match specViolation imm want o with
+        | some c => fail := some s!"{c} {acc}"
+        | none => pure ()
+      -- model: the value is the reference text; it is owned when the regenerated table says the
+      -- accessor returns through a copying conversion (always, or under Immutable), a view otherwise
+      let text := want.getD o.during
+      let owned := match findRow meth with
+        | some r => r.okImmutable
+        | none => true
+      let after : Option (List Bytes) :=
+        if !imm then none
+        else if owned then some text
+        else o.after            -- a view: the model cannot say what later requests left there
+      if imm && !owned then views := views + 1
+      modelParts := modelParts ++ [s!"{acc}={renderObs text text after}"]
+    let tags := [if imm then "immutable" else "mutable", s!"later{min laterN 4}"] ++
+      (if nosem > 0 then ["has-nosem"] else []) ++ (if views > 0 then ["table-says-view"] else []) ++
+      (if imm && laterN > 0 then ["nt"] else [])
+    pure { id := id, modelObs := ";".intercalate modelParts, implObs := impl, spec := fail, tags := tags }
+  | _ => throw s!"outside-domain: expected 5 fields, got {f.length}"
+
+def main : IO Unit := run handleCase
